@@ -179,6 +179,15 @@ pub(crate) mod vk {
     pub(crate) fn err_unsupported(_m: &'static str) -> Error { mk_err(Kind::Unsupported) }
     pub(crate) fn err_copy(e: &Error) -> Error { mk_err(kind_of(e)) }
 
+    // ------------------------------------------------------------------ payload-layer ghost state (see kani/enc/lzma2_writer.rs)
+    pub(crate) static mut PL_CUR_IN: u64 = 0;          // bytes accepted by the current payload writer
+    pub(crate) static mut PL_BLOCKS: [u64; 4] = [0; 4]; // bytes accepted by each finished payload writer
+    pub(crate) static mut PL_N: usize = 0;             // number of finished payload writers
+    pub(crate) static mut PL_EMIT: usize = 1;          // compressed bytes each payload emits on finish (1..=4)
+    pub(crate) fn pl_reset(emit: usize) {
+        unsafe { PL_CUR_IN = 0; PL_BLOCKS = [0; 4]; PL_N = 0; PL_EMIT = emit; }
+    }
+
     // ------------------------------------------------------------------ fixed-size sink / source
     /// Fixed-capacity sink: `Vec<u8>` growth is expensive for CBMC. Overflow of the capacity is a
     /// harness error (assert), never silently dropped.
